@@ -1196,6 +1196,28 @@ func (e *SpecEnv) callExpr(v *ast.CallExpr) Val {
 				return r
 			}
 			return Scalar{e.c.freshConst(e.s, "nocall", e.c.ar.idxSort()), e.c.ar.idxSort(), types.Typ[types.Int]}
+		case "callindex":
+			// callindex("name", k): position in this path's call log of the k-th (0-based) call logged under name, -1 if there
+			// is none — lets a clause state the ORDER of two calls (the log of a path is a concrete sequence)
+			name, _ := strconv.Unquote(v.Args[0].(*ast.BasicLit).Value)
+			k := 0
+			if len(v.Args) > 1 {
+				if lit, ok := v.Args[1].(*ast.BasicLit); ok {
+					k, _ = strconv.Atoi(lit.Value)
+				}
+			}
+			pos := -1
+			seen := 0
+			for i, l := range e.s.calllog {
+				if l == name {
+					if seen == k {
+						pos = i
+						break
+					}
+					seen++
+				}
+			}
+			return e.intLit(big.NewInt(int64(pos)))
 		case "calledinloop":
 			// calledinloop("name"): calls logged since the loop head was entered (one iteration, at a back edge)
 			name, _ := strconv.Unquote(v.Args[0].(*ast.BasicLit).Value)
